@@ -11,6 +11,8 @@ COMMON_TRUSTED_BASE = [
     "the hand-written Lean model under lean/Yae/Model is tied to /repo by differential execution (harness/cmd/corr, built against /repo with -tags verif on every run), not derived from the source",
     "harness/cmd/extract (regenerates lean/Yae/Gen from the running packages and from a go/ast scan) and the canonicalisation of answers in the harness",
     "Go runtime and standard library (strconv, regexp, sort, reflect, unicode, math, time), cgo timelib, amd64 float->int conversion; Lean Float = IEEE binary64 for + - * / and pow",
+    "Go's regexp is assumed to compute the leftmost-first reference semantics of Yae/Spec/Regex.lean on the lexer's twelve expressions (tied by the regex cases of the lex stream); the pattern texts themselves are read from the Go source on every run",
+    "the source-derived inventories (shared write sites, panic guards, lexer patterns) are go/ast scans of named files; the call structure behind C12.contained_partial is hand-modelled",
 ]
 
 TECH = "Lean 4 theorems over an executable model + model/implementation correspondence + regenerated tables"
